@@ -163,6 +163,76 @@ def check(idx: Index, rep: Report, tier: str) -> str:
     if n_fact == 0:
         raise AnalysisError("no attribute-class factory found (UnregisteredAttr.with_name_and_type expected)")
 
+    # ---- R6: canonicalising constructors canonicalise on every path
+    r6 = rep.rule("C08.R6", "an attribute constructor that canonicalises its payload (normalized_value) does so on every path to super().__init__, except under the branch that tests for the type it is not defined for: the same parameters always give the same stored payload", floor=1)
+    from ..cfg import CFG
+    from ..dataflow import reaching_defs
+
+    n_canon = 0
+    for c in subs:
+        init = c.method("__init__")
+        if init is None:
+            continue
+        norm_calls = [k for k in calls_in(init.node) if call_attr(k) == "normalized_value"]
+        if not norm_calls:
+            continue
+        n_canon += 1
+        cfg = CFG(init.node)
+        supers = [k for k in calls_in(init.node) if unparse(k.func) in ("super().__init__", "ParametrizedAttribute.__init__", "object.__setattr__")]
+        if not supers:
+            raise AnalysisError(f"{init.fq}: no super().__init__ call found in a canonicalising constructor")
+        norm_nodes = {cfg.node_of(k) for k in norm_calls}
+        # the test that excludes the canonicalisation (guard of the normalized_value call)
+        from ..astutil import guard_facts
+
+        enclosing_tests = [w.test for w in walk_local(init.node) if isinstance(w, ast.If) and any(x is norm_calls[0] for b in w.body + w.orelse for x in ast.walk(b))]
+        excl = [(unparse(t), pol) for t, pol in guard_facts(init.node, norm_calls[0]) if "isinstance" in unparse(t) and any(x is t for e in enclosing_tests for x in ast.walk(e))]
+
+        def edge_ok(n: int, m: int, lab) -> bool:
+            a = cfg.nodes[n].ast
+            if a is None or lab not in ("T", "F"):
+                return True
+            truth = lab == "T"
+            while isinstance(a, ast.UnaryOp) and isinstance(a.op, ast.Not):
+                a, truth = a.operand, not truth
+            txt = unparse(a)
+            for t, pol in excl:
+                if txt == t:
+                    # follow only the edge on which normalisation is expected (the other edge is the excluded type)
+                    return truth == pol
+            return True
+
+        for sc in supers:
+            ns = cfg.node_of(sc)
+            path = cfg.path_avoiding(cfg.entry, ns, lambda n: n.id in norm_nodes, follow_exc=False, edge_ok=edge_ok)
+            inst = f"{init.fq}:{sc.lineno - init.node.lineno}"
+            if path is None:
+                # the stored value must be the (possibly) normalised name
+                r6.ok(init.fq, f"{init.loc} every path to `{unparse(sc)[:60]}` passes normalized_value (except the branch {excl})")
+            else:
+                r6.fail(init.fq, Finding("C08.R6", init.fq, "normalisation-bypass", f"a path reaches `{unparse(sc)[:70]}` without passing normalized_value: the same (value, type) given in another form is stored with a different payload, so attributes built from the same parameters compare unequal (e.g. IntegerAttr(IntAttr(255), i8) vs IntegerAttr(255, i8) == -1)", f"{init.module.relpath}:{sc.lineno}", path=cfg.describe(path)))
+        # the normalised value is what is stored
+        for nc in norm_calls:
+            pm = {id(ch): p for p in ast.walk(init.node) for ch in ast.iter_child_nodes(p)}
+            st = nc
+            while not isinstance(st, ast.stmt):
+                st = pm[id(st)]
+            if not (isinstance(st, ast.Assign) and isinstance(st.targets[0], ast.Name)):
+                raise AnalysisError(f"{init.fq}: result of normalized_value is not bound to a name")
+            nv = st.targets[0].id
+            stored = False
+            for sc in supers:
+                for nm in {n_.id for a_ in sc.args for n_ in ast.walk(a_) if isinstance(n_, ast.Name)}:
+                    for nid, val in reaching_defs(cfg, nm, cfg.node_of(sc)):
+                        if val is not None and (nv in {x.id for x in ast.walk(val) if isinstance(x, ast.Name)} or any(isinstance(x, ast.Call) and call_attr(x) == "normalized_value" for x in ast.walk(val))):
+                            stored = True
+            if stored:
+                r6.ok(init.fq + ":stored", f"{init.loc} the normalised value `{nv}` flows into the stored payload")
+            else:
+                r6.fail(init.fq + ":stored", Finding("C08.R6", init.fq, "normalised-value-dropped", f"the result of normalized_value (`{nv}`) never reaches the arguments of super().__init__: the payload is stored unnormalised", init.loc))
+    if n_canon == 0:
+        raise AnalysisError("no canonicalising attribute constructor found (IntegerAttr.__init__ expected)")
+
     return (
         "Class-hierarchy sweep over every Attribute subclass of the repository (all @irdl_attr_definition classes must "
         "resolve): eq/hash override pairing and key agreement, payload type immutability of Data[T], bit-pattern keys for "
